@@ -18,7 +18,10 @@ EXPLANATION = (
     'subclasses escape: every partial operation (int, codecs.decode, next, subscripts, Optional attribute, assert, recursion) is '
     'caught and converted or proven total from the token regex / guards; R5 every token kind whose regex admits a newline updates '
     'lineno and line_start consistently; R6 extents of call/array/dict/parenthesis nodes start at the first field and end one '
-    'past the closing single-character token. Does NOT decide: a byte-for-byte round trip of a given file (implied by R1-R3 only), '
+    'past the closing single-character token; R7 a child list that the visitor replays as a separate block is never stored into after '
+    'the block that follows it (positional after keyword argument). R1 also requires the node of a token to be built before anything else '
+    'claims the whitespace that follows it; R2 that an accumulating block flushes the buffer after its last consuming call; R3 that every '
+    'node class is hashable (nodes are dictionary keys). Does NOT decide: a byte-for-byte round trip of a given file (implied by R1-R3 only), '
     'whether the regexes split text as the language intends, ordering of whitespace relative to its node.')
 ASSUMPTIONS = [
     'calls that leave mparser.py (mlog, re, codecs apart from codecs.decode, str/list/dict methods) raise nothing but MesonException subclasses',
@@ -37,8 +40,8 @@ def r1(ctx: RuleCtx) -> None:
     an = analysed(ctx.repo)
     ctx.ok(f'stream advance primitive: only Parser.{an.primitive} writes self.previous; node wrapper Parser.{an.ctor_wrapper}; '
            f'kinds without own text {sorted(an.exempt)} (derived from {an.primitive})')
-    ctx.require(an.exempt == {'eol', 'eof'}, 'exempt kinds are eol (already in current_ws) and eof (synthetic)', mod, f'Parser.{an.primitive}',
-                'exempt token kinds', f'token kinds treated as carrying no text are {sorted(an.exempt)}; the analysis was validated for eol/eof only')
+    if an.exempt != {'eol', 'eof'}:
+        raise Undecided(f'token kinds treated as carrying no text are {sorted(an.exempt)}; the shape of Parser.{an.primitive} was understood for eol/eof only')
     ctx.ok(f'carrier-free node classes {sorted(an.free)}; classes replayed with a fixed spelling {an.fixed}')
     n_cons = n_frag = 0
     for s in an.sites.values():
@@ -173,6 +176,7 @@ def _r3_core(ctx: RuleCtx) -> None:
             kinds.setdefault(cls, set()).update(k if isinstance(k, frozenset) else [k])
     cp.check_terminals(ctx, model, bool_map, strip, kinds)
     cp.check_equality(ctx, model)
+    cp.check_hashable(ctx, model)
 
 
 def r4(ctx: RuleCtx) -> None:
@@ -185,6 +189,12 @@ def r4(ctx: RuleCtx) -> None:
     if got[0] is not None or got[1] is None or got[2] is not None:
         raise Undecided(f'positive example for R4: int() totality of regex alternatives is misjudged: {got}')
     ctx.note('built-in positive example: `[1-9]\\d*` is an unbounded decimal (partial for int()), `[1-9]\\d{0,8}` is total')
+
+
+def r7(ctx: RuleCtx) -> None:
+    from .c02_model import model_for
+    from . import c02_printer as cp
+    cp.check_list_order(ctx, model_for(ctx.repo))
 
 
 def r5(ctx: RuleCtx) -> None:
@@ -208,5 +218,6 @@ RULES = [
     Rule('C02.R3', 'full-fidelity replay: every field once in textual order, raw text of terminals, positional equality', r3),
     Rule('C02.R4', 'only MesonException escapes the lexer/parser entry points (partial operations, recursion)', r4),
     Rule('C02.R5', 'newline-capable token kinds update lineno and line_start consistently', r5),
+    Rule('C02.R7', 'source order across child lists that the printer replays as separate blocks', r7),
     Rule('C02.R6', 'extents of spliced nodes: first field .. closing token + 1', r6),
 ]
